@@ -288,6 +288,16 @@ fn flag_laws(x: &[u8], rec: &mut Recorder) {
         law("v2::Header::try_from", (r.is_incomplete(), r.is_complete()), r.as_ref().err().map(|e| (e.is_incomplete(), e.is_complete())), r.is_ok(), &mut bad);
         n += 1;
         let h = HeaderResult::parse(x);
+        // method-call syntax (an inherent method of the same name would win) and the trait path
+        // must be the same function
+        let via_trait = (PartialResult::is_incomplete(&h), PartialResult::is_complete(&h));
+        if via_trait != (h.is_incomplete(), h.is_complete()) {
+            bad.push(format!("HeaderResult: method syntax says {:?}, <HeaderResult as PartialResult> says {:?}", (h.is_incomplete(), h.is_complete()), via_trait));
+        }
+        let r2t = (PartialResult::is_incomplete(&r), PartialResult::is_complete(&r));
+        if r2t != (r.is_incomplete(), r.is_complete()) {
+            bad.push(format!("v2 Result: method syntax says {:?}, the trait path says {:?}", (r.is_incomplete(), r.is_complete()), r2t));
+        }
         let inner = match &h {
             HeaderResult::V1(r) => (r.is_incomplete(), r.is_complete()),
             HeaderResult::V2(r) => (r.is_incomplete(), r.is_complete()),
